@@ -132,3 +132,69 @@ Section Styles.
       + destruct (e_debug e); [reflexivity|apply Hb].
   Qed.
 End Styles.
+
+(* ---------- nested error chunks are visible ---------- *)
+
+(* the group's body is rendered for this record / build profile *)
+Definition group_on (e : env) (g : group) : bool :=
+  match g with
+  | GDebug => e_debug e
+  | GRelease => negb (e_debug e)
+  | _ => true
+  end.
+
+(* an Error chunk with message m sits at the top or inside rendered groups
+   none of which has a maximum width (which could cut it) *)
+Fixpoint error_reachable (e : env) (m : str) (c : chunk) : bool :=
+  match c with
+  | CError m' => str_eqb m m'
+  | CGroup g cs p =>
+    group_on e g && match p_max p with None => true | Some _ => false end
+    && existsb (error_reachable e m) cs
+  | _ => false
+  end.
+
+Definition contains (l needle : list item) : Prop := exists pre post, l = pre ++ needle ++ post.
+
+Lemma contains_app_l : forall a l n, contains l n -> contains (a ++ l) n.
+Proof. intros a l n (pre & post & ->). exists (a ++ pre), post. rewrite app_assoc. reflexivity. Qed.
+
+Lemma contains_app_r : forall a l n, contains l n -> contains (l ++ a) n.
+Proof.
+  intros a l n (pre & post & ->). exists pre, (post ++ a). rewrite <- !app_assoc. reflexivity.
+Qed.
+
+Section NestedErrors.
+  Variable ok : str -> bool.
+  Variable ts : str -> tz -> str.
+  Variable e : env.
+
+  Theorem nested_errors_visible : forall m c,
+    error_reachable e m c = true ->
+    contains (enc_chunk ok ts e c) (chars (LIT "{ERROR: " ++ m ++ [125])).
+  Proof.
+    intros m. induction c as [t|lf p|m'| |g cs p IH] using chunk_ind'; cbn [error_reachable];
+      try discriminate.
+    - intros H. apply str_eqb_eq in H. subst m'. exists [], []. cbn [enc_chunk app].
+      rewrite app_nil_r. reflexivity.
+    - intros H. apply andb_true_iff in H. destruct H as [H Hex].
+      apply andb_true_iff in H. destruct H as [Hon Hmax].
+      cbn [enc_chunk].
+      assert (Hb : contains (flat_map (enc_chunk ok ts e) cs) (chars (LIT "{ERROR: " ++ m ++ [125]))).
+      { clear Hon Hmax. induction IH as [|x l Hx _ IHl]; cbn [existsb] in Hex; [discriminate|].
+        cbn [flat_map]. apply orb_true_iff in Hex. destruct Hex as [Hx'|Hl].
+        - apply contains_app_r. apply Hx. exact Hx'.
+        - apply contains_app_l. apply IHl. exact Hl. }
+      assert (Hg : contains (enc_group e g (flat_map (enc_chunk ok ts e) cs))
+                            (chars (LIT "{ERROR: " ++ m ++ [125]))).
+      { destruct g; cbn [enc_group group_on] in *.
+        - exact Hb.
+        - destruct (level_style (e_level e)); [|exact Hb].
+          apply (contains_app_l [St n]). apply contains_app_r. exact Hb.
+        - rewrite Hon. exact Hb.
+        - apply negb_true_iff in Hon. rewrite Hon. exact Hb. }
+      unfold apply_params. destruct (p_max p); [discriminate|].
+      destruct (p_min p); [|exact Hg].
+      unfold pad_side. destruct (p_align p); [apply contains_app_r|apply contains_app_l]; exact Hg.
+  Qed.
+End NestedErrors.
